@@ -51,7 +51,7 @@ def check(ck):
     shut = [(n, c) for n in g.live_nodes() for c in node_calls(n) if call_name(c) == "shutdown"]
     for (n, c) in shut:
         guards = [g.nodes[i] for i in d[n.id] if g.nodes[i].kind == "branch"]
-        ck.require(bool(guards), "C12.1", "%s: `%s`" % (q.fn(fc), dump(c)), "shutdown() only where the server is known to be serving",
+        ck.require(bool(guards), "C12.1", "%s: unconditional shutdown()" % q.fn(fc), "shutdown() only where the server is known to be serving",
                    "server_close() calls `%s` unconditionally; BaseServer.shutdown() blocks until serve_forever() acknowledges, so closing a "
                    "server that never served (or whose serve loop already ended) never returns" % dump(c), q.loc(fc, n))
     if not shut:
